@@ -203,6 +203,15 @@ def check_prior(case, stats):
   tag = '%s/%s' % (name, opt)
   if bad:
     if not isinstance(r, ValueError):
+      if opt == 'array-singular' and not isinstance(r, RuntimeError):
+        # discriminating predicate of known finding KF2: the symmetric eigen-solver returned the exactly zero
+        # eigenvalue as noise above the documented tolerance d * eps * lambda_max
+        from scipy.linalg import eigh
+        wv = eigh(arr, check_finite=False)[0]      # same routine as the library (eigenvectors requested)
+        if np.abs(wv).min() >= np.abs(wv).max() * d * EPS:
+          raise Violation('C20/prior/bad-accepted/%s/eigen-noise-above-tol' % tag,
+                          'exactly singular prior accepted: computed |lambda|_min = %g >= tolerance %g'
+                          % (np.abs(wv).min(), np.abs(wv).max() * d * EPS))
       raise Violation('C20/prior/bad-accepted/' + tag, 'fit accepted %s=%s' % (pname, opt))
     stats.case(case, True, ['prior', 'prior:' + opt, name, 'rejected'])
     return
